@@ -47,14 +47,12 @@ def validators : List (String × String) := [
 -- re-read 2026-09-26 after a79d153 (restore countdown loaded with max(duration, 1))
 def methods : List (String × String) := [
   ("FileSystem.__init__", "def __init__(self, **kwargs):\n    super().__init__(**kwargs)\n    if not self.folders:\n        self.create_folder('root')"),
+  ("FileSystem.setup_for_episode", "def setup_for_episode(self, episode):\n    super().setup_for_episode(episode=episode)\n    self.num_file_creations = 0\n    self.num_file_deletions = 0"),
   ("FileSystem.create_folder", "def create_folder(self, folder_name):\n    folder = self.get_folder(folder_name)\n    if folder:\n        pass\n    else:\n        folder = Folder(name=folder_name, sys_log=self.sys_log)\n        self._folder_request_manager.add_request(name=folder.name, request_type=RequestType(func=folder._request_manager))\n    self.folders[folder.uuid] = folder\n    if self._default_folder_scan_duration is not None:\n        folder.scan_duration = self._default_folder_scan_duration\n    if self._default_folder_restore_duration is not None:\n        folder.restore_duration = self._default_folder_restore_duration\n    return folder"),
   ("FileSystem.delete_folder", "def delete_folder(self, folder_name):\n    if folder_name == 'root':\n        return False\n    folder = self.get_folder(folder_name)\n    if not folder:\n        return False\n    folder.delete()\n    self.folders.pop(folder.uuid)\n    folder.remove_all_files()\n    self.deleted_folders[folder.uuid] = folder\n    return True"),
-  ("FileSystem.get_folder", "def get_folder(self, folder_name, include_deleted=False):\n    for folder in self.folders.values():\n        if folder.name == folder_name:\n            return folder\n    if include_deleted:\n        for folder in self.deleted_folders.values():\n            if folder.name == folder_name:\n                return folder\n    return None"),
   ("FileSystem.create_file", "def create_file(self, file_name, size=None, file_type=None, folder_name=None, force=False):\n    if folder_name:\n        folder = self.get_folder(folder_name)\n        if not folder:\n            folder = self.create_folder(folder_name)\n    else:\n        folder = self.get_folder('root')\n    file = self.get_file(folder.name, file_name)\n    if file:\n        if force:\n            pass\n    else:\n        file = File(name=file_name, sim_size=size, file_type=file_type, folder_id=folder.uuid, folder_name=folder.name, sim_root=self.sim_root, sys_log=self.sys_log)\n    folder.add_file(file, force=force)\n    self.num_file_creations += 1\n    return file"),
   ("FileSystem.get_file", "def get_file(self, folder_name, file_name, include_deleted=False):\n    folder = self.get_folder(folder_name, include_deleted=include_deleted)\n    if folder:\n        return folder.get_file(file_name, include_deleted=include_deleted)"),
-  ("FileSystem.delete_file", "def delete_file(self, folder_name, file_name):\n    folder = self.get_folder(folder_name)\n    if folder:\n        file = folder.get_file(file_name)\n        if file:\n            self.num_file_deletions += 1\n            folder.remove_file(file)\n            return True\n    return False"),
   ("FileSystem.restore_folder", "def restore_folder(self, folder_name):\n    folder = self.get_folder(folder_name=folder_name, include_deleted=True)\n    if folder is None:\n        return False\n    self.deleted_folders.pop(folder.uuid, None)\n    folder.restore()\n    self.folders[folder.uuid] = folder\n    self._folder_request_manager.add_request(name=folder.name, request_type=RequestType(func=folder._request_manager))\n    return True"),
-  ("FileSystem.restore_file", "def restore_file(self, folder_name, file_name):\n    folder = self.get_folder(folder_name=folder_name)\n    if not folder:\n        return False\n    file = folder.get_file(file_name=file_name, include_deleted=True)\n    if not file:\n        return False\n    return folder.restore_file(file_name=file_name)"),
   ("FileSystem.access_file", "def access_file(self, folder_name, file_name):\n    folder = self.get_folder(folder_name=folder_name)\n    if folder:\n        file = folder.get_file(file_name=file_name)\n        if file:\n            file.num_access += 1\n            return True\n        else:\n            pass\n    return False"),
   ("FileSystem.pre_timestep", "def pre_timestep(self, timestep):\n    super().pre_timestep(timestep)\n    self.num_file_creations = 0\n    self.num_file_deletions = 0\n    for folder in self.folders.values():\n        folder.pre_timestep(timestep)"),
   ("FileSystem.apply_timestep", "def apply_timestep(self, timestep):\n    super().apply_timestep(timestep=timestep)\n    for folder_id in self.folders:\n        self.folders[folder_id].apply_timestep(timestep=timestep)"),
@@ -65,27 +63,16 @@ def methods : List (String × String) := [
   ("FileSystem.delete_folder_by_id", "def delete_folder_by_id(self, folder_uuid):\n    folder = self.get_folder_by_id(folder_uuid=folder_uuid)\n    self.delete_folder(folder_name=folder.name)"),
   ("FileSystem.get_folder_by_id", "def get_folder_by_id(self, folder_uuid, include_deleted=False):\n    if include_deleted:\n        folder = self.deleted_folders.get(folder_uuid)\n        if folder:\n            return folder\n    return self.folders.get(folder_uuid)"),
   ("FileSystem.scan", "def scan(self, instant_scan=False):\n    for folder_id in self.folders:\n        self.folders[folder_id].scan(instant_scan=instant_scan)"),
-  ("Folder.get_file", "def get_file(self, file_name, include_deleted=False):\n    for file in self.files.values():\n        if file.name == file_name:\n            return file\n    if include_deleted:\n        for file in self.deleted_files.values():\n            if file.name == file_name:\n                return file\n    return None"),
   ("Folder.get_file_by_id", "def get_file_by_id(self, file_uuid, include_deleted=False):\n    if include_deleted:\n        deleted_file = self.deleted_files.get(file_uuid)\n        if deleted_file:\n            return deleted_file\n    return self.files.get(file_uuid)"),
-  ("Folder.remove_file", "def remove_file(self, file):\n    if file is None or not isinstance(file, File):\n        raise Exception(f'Invalid file: {file}')\n    if self.files.get(file.uuid):\n        self.files.pop(file.uuid)\n        self.deleted_files[file.uuid] = file\n        file.delete()\n    else:\n        pass"),
   ("Folder.remove_file_by_id", "def remove_file_by_id(self, file_uuid):\n    file = self.get_file_by_id(file_uuid=file_uuid)\n    self.remove_file(file=file)"),
   ("Folder.pre_timestep", "def pre_timestep(self, timestep):\n    super().pre_timestep(timestep)\n    self._scanned_this_step = False\n    for file in self.files.values():\n        file.pre_timestep(timestep)"),
   ("Folder._scan_timestep", "def _scan_timestep(self):\n    if self.scan_countdown >= 0:\n        self.scan_countdown -= 1\n        if self.scan_countdown == 0:\n            for file_id in self.files:\n                file = self.get_file_by_id(file_uuid=file_id)\n                file.scan()\n            self.health_status = FileSystemItemHealthStatus(max([f.health_status.value for f in self.files.values()] or [0]))\n            self.visible_health_status = self.health_status\n            self._scanned_this_step = True"),
   ("Folder.scan", "def scan(self, instant_scan=False):\n    if self.deleted:\n        return False\n    if instant_scan:\n        for file_id in self.files:\n            file = self.get_file_by_id(file_uuid=file_id)\n            file.scan()\n            if file.visible_health_status == FileSystemItemHealthStatus.CORRUPT:\n                self.visible_health_status = FileSystemItemHealthStatus.CORRUPT\n        self._scanned_this_step = True\n        return True\n    if self.scan_countdown <= 0:\n        self.scan_countdown = max(self.scan_duration, 1)\n    else:\n        pass\n    return True"),
   ("Folder.repair", "def repair(self):\n    if self.deleted:\n        return False\n    for file_id in self.files:\n        file = self.get_file_by_id(file_uuid=file_id)\n        file.repair()\n    if self.health_status == FileSystemItemHealthStatus.CORRUPT:\n        self.health_status = FileSystemItemHealthStatus.GOOD\n    self.health_status = FileSystemItemHealthStatus.GOOD\n    return True"),
   ("Folder.corrupt", "def corrupt(self):\n    if self.deleted:\n        return False\n    for file_id in self.files:\n        file = self.get_file_by_id(file_uuid=file_id)\n        file.corrupt()\n    self.health_status = FileSystemItemHealthStatus.CORRUPT\n    return True"),
-  ("Folder.remove_file_by_name", "def remove_file_by_name(self, file_name):\n    for f in self.files.values():\n        if f.name == file_name:\n            self.remove_file(f)\n            return True\n    return False"),
   ("Folder.remove_all_files", "def remove_all_files(self):\n    for file_id in self.files:\n        file = self.files.get(file_id)\n        file.delete()\n        self.deleted_files[file_id] = file\n    self.files = {}"),
-  ("Folder.restore", "def restore(self):\n    if self.deleted:\n        self.deleted = False\n    if self.restore_countdown <= 0:\n        self.restore_countdown = max(self.restore_duration, 1)\n        self.health_status = FileSystemItemHealthStatus.RESTORING\n    else:\n        pass\n    return True"),
-  ("Folder.delete", "def delete(self):\n    if self.deleted:\n        return False\n    self.deleted = True\n    return True"),
-  ("Folder._restoring_timestep", "def _restoring_timestep(self):\n    if self.restore_countdown >= 0:\n        self.restore_countdown -= 1\n        if self.restore_countdown == 0:\n            for file_id, file in self.files.items():\n                self.restore_file(file_name=file.name)\n            deleted_files = self.deleted_files.copy()\n            for file_id, file in deleted_files.items():\n                self.restore_file(file_name=file.name)\n            if self.deleted:\n                self.deleted = False\n            elif self.health_status in [FileSystemItemHealthStatus.CORRUPT, FileSystemItemHealthStatus.RESTORING]:\n                self.health_status = FileSystemItemHealthStatus.GOOD"),
   ("Folder.apply_timestep", "def apply_timestep(self, timestep):\n    super().apply_timestep(timestep=timestep)\n    self._scan_timestep()\n    self._reveal_to_red_timestep()\n    self._restoring_timestep()\n    for file_id in self.files:\n        self.files[file_id].apply_timestep(timestep=timestep)"),
   ("Folder.describe_state", "def describe_state(self):\n    state = super().describe_state()\n    state['files'] = {file.name: file.describe_state() for uuid, file in self.files.items()}\n    state['deleted_files'] = {file.name: file.describe_state() for uuid, file in self.deleted_files.items()}\n    state['scanned_this_step'] = self._scanned_this_step\n    return state"),
-  ("File.restore", "def restore(self):\n    if self.deleted:\n        self.deleted = False\n        return True\n    if self.health_status == FileSystemItemHealthStatus.CORRUPT:\n        self.health_status = FileSystemItemHealthStatus.GOOD\n    self.num_access += 1\n    return True"),
-  ("File.delete", "def delete(self):\n    if self.deleted:\n        return False\n    self.num_access += 1\n    self.deleted = True\n    return True"),
-  ("File.scan", "def scan(self):\n    if self.deleted:\n        return False\n    self.num_access += 1\n    self.visible_health_status = self.health_status\n    return True"),
-  ("File.repair", "def repair(self):\n    if self.deleted:\n        return False\n    if self.health_status == FileSystemItemHealthStatus.CORRUPT:\n        self.health_status = FileSystemItemHealthStatus.GOOD\n    self.num_access += 1\n    return True"),
-  ("File.corrupt", "def corrupt(self):\n    if self.deleted:\n        return False\n    if self.health_status == FileSystemItemHealthStatus.GOOD:\n        self.health_status = FileSystemItemHealthStatus.CORRUPT\n    self.num_access += 1\n    return True"),
   ("File.pre_timestep", "def pre_timestep(self, timestep):\n    super().pre_timestep(timestep)\n    self.num_access = 0")
 ]
 
